@@ -397,6 +397,12 @@ def main():
             "known_findings_seen": sorted(seen_known.keys()),
             "stale_findings": stale,
             "search_stats": {k: v for k, v in stats.items() if k not in ("samples", "kind")},
+            # families of generated inputs that the parser mostly rejects exercise little: listed so that a broken
+            # generator is seen (one once hid a whole family behind a missing namespace declaration)
+            "generator_warnings": sorted(
+                "%s: %d accepted, %d rejected" % (k[:-9], stats.get("distribution", {}).get(k[:-9], 0), v)
+                for k, v in stats.get("distribution", {}).items()
+                if k.endswith("-rejected") and v > stats.get("distribution", {}).get(k[:-9], 0) and not k.startswith(("malformed", "raw", "past-failure"))),
             "timings_s": {k: v for k, v in report.items() if k.endswith("_s")},
             "hooked_build": bool(hooked),
         },
